@@ -1,5 +1,5 @@
 #!/bin/sh
 cd "$(dirname "$0")/.."
-for p in C19 C07 C09 C08 C13 C15 C17 C18 C12 C04 C16 C02 C03 C05 C06 C11 C20 C14 C01 C10; do
+for p in ${THOROUGH_PROPS:-C19 C07 C09 C08 C13 C15 C17 C18 C12 C04 C16 C02 C03 C05 C06 C11 C20 C14 C01 C10}; do
   VERIF_JOBS=8 /usr/bin/time -f "$p wall=%es" ./check $p --tier thorough 2>&1 | grep -E "^(C[0-9]+:|VIOLATION|  job=|KNOWN|INCONCLUSIVE|ERROR|UNDECIDED|VACUOUS|C[0-9]+ wall)" | cut -c1-260
 done
